@@ -414,11 +414,15 @@ class TranslatorC(Translator):
                 arg1 = self.from_expr(expr.args[1])
 
                 if expr.size <= self.NATIVE_INT_MAX_SIZE:
-                    out = '%s%d(%s, %s)' % (
+                    # the runtime functions return a signed type: mask the
+                    # result so that a negative value is not sign extended
+                    # where it is used (pointer of a memory access)
+                    out = '(%s%d(%s, %s)&%s)' % (
                         expr.op,
                         expr.args[0].size,
                         arg0,
-                        arg1
+                        arg1,
+                        self._size2mask(expr.size)
                     )
                 else:
                     out = "bignum_%s(%s, %s, %d)" % (
